@@ -1162,9 +1162,13 @@ func (sc *serverConn) handleHeaderFrame(strm *Stream, fr *FrameHeader) error {
 		return NewGoAwayError(ProtocolError, "stream that depends on itself")
 	}
 
-	// Only a HEADERS or PUSH_PROMISE frame opens a header block, and only when
-	// there is nothing left over from a frame that cut a field in half.
-	blockStart := fr.Type() != FrameContinuation && len(strm.previousHeaderBytes) == 0
+	// Only a HEADERS or PUSH_PROMISE frame opens a header block. A dynamic table
+	// size update belongs at the start of the block, which is not the same as
+	// the start of a frame: the frame boundary can fall inside the update or
+	// right after it, so what counts is that no field has been decoded yet.
+	if fr.Type() != FrameContinuation {
+		strm.blockFields = 0
+	}
 
 	// Appending to the stream's own buffer and handing it back keeps the
 	// capacity across frames instead of allocating a header block every time.
@@ -1178,12 +1182,10 @@ func (sc *serverConn) handleHeaderFrame(strm *Stream, fr *FrameHeader) error {
 
 	var err error
 
-	fieldsProcessed := 0
-
 	for len(b) > 0 {
 		pb := b
 
-		b, err = sc.dec.nextField(hf, blockStart, fieldsProcessed, b)
+		b, err = sc.dec.nextField(hf, true, strm.blockFields, b)
 		if err != nil {
 			// ErrUnexpectedSize means a header field spills past the bytes we
 			// currently have. That is only legal when more frames are coming:
@@ -1192,12 +1194,32 @@ func (sc *serverConn) handleHeaderFrame(strm *Stream, fr *FrameHeader) error {
 			// truncated field is a decoding error.
 			if errors.Is(err, ErrUnexpectedSize) && len(pb) > 0 && !fr.Flags().Has(FlagEndHeaders) {
 				err = nil
+
+				// Size updates in front of the field that was cut short have
+				// been applied already. Keeping them would apply them a second
+				// time when the rest of the field arrives.
+				for len(pb) > 0 && pb[0]&0xe0 == 0x20 {
+					rest, _, ierr := readInt(5, pb)
+					if ierr != nil {
+						break
+					}
+
+					pb = rest
+				}
+
 				strm.previousHeaderBytes = append(strm.previousHeaderBytes, pb...)
 			} else {
 				err = NewGoAwayError(CompressionError, err.Error())
 			}
 
 			break
+		}
+
+		// A fragment can end in a dynamic table size update, in which case
+		// nextField has applied it and decoded no field: hf is as empty as it
+		// came out of the pool, and there is nothing to add to the request.
+		if strm.blockFields == 0 && hf.Empty() {
+			continue
 		}
 
 		k, v := hf.KeyBytes(), hf.ValueBytes()
@@ -1256,7 +1278,7 @@ func (sc *serverConn) handleHeaderFrame(strm *Stream, fr *FrameHeader) error {
 				return NewResetStreamError(ProtocolError, fmt.Sprintf("invalid request pseudo-header %s", k))
 			}
 
-			fieldsProcessed++
+			strm.blockFields++
 			continue
 		}
 
@@ -1292,7 +1314,7 @@ func (sc *serverConn) handleHeaderFrame(strm *Stream, fr *FrameHeader) error {
 			req.Header.AddBytesKV(k, v)
 		}
 
-		fieldsProcessed++
+		strm.blockFields++
 	}
 
 	return err
